@@ -14,7 +14,7 @@
    * basic.Timer: every Schedule is a timer with a state; time.AfterFunc fires the function in its own goroutine, so
      "the timer fires" (EFire, possible once the clock has reached its time) and "the closure runs under the PIT
      lock" (ERun) are separate events; cancelling (timer.Stop) only works while the timer has not fired.
-   * The clock only moves by EAdvance.  Time is in milliseconds.
+   * The clock only moves by EAdvance.  Time is in nanoseconds (Go's time.Duration).
 
    [variant] selects, per repaired defect, between the code as pinned and the code as repaired (see docs/C20.md);
    [current] is what /repo contains now and is what the correspondence run executes; [pinned] is kept for the
@@ -28,7 +28,7 @@ Definition key := N.
 Definition name := list key.
 Definition time := N.
 
-(* translated from engine.go on every run (GenConsts.v): DefaultInterestLife = 4 s, TimeoutMargin = 10 ms *)
+(* translated from engine.go on every run (GenConsts.v): DefaultInterestLife = 4 s, TimeoutMargin = 10 ms, in ns *)
 Definition default_life : N := gen_default_life.
 Definition timeout_margin : N := gen_timeout_margin.
 
@@ -231,6 +231,7 @@ Inductive obs :=
 Inductive ev :=
   | EAdvance (d : N)
   | EExpress (nm : name) (cbp : bool) (dig : option key) (life : option N)
+  | EExpressFail (nm : name) (cbp : bool) (dig : option key) (life : option N)   (* Express whose face.Send fails *)
   | EData (dn : name) (dd : key)
   | ENack (nm : name) (dig : option key) (reason : N)
   | EFire (tid : nat)
@@ -287,7 +288,9 @@ Definition with_fib (s : state) (h : heap (option N)) : state :=
 (* ---- Express ---- *)
 Definition lifetime (life : option N) : N := match life with Some l => l | None => default_life end.
 
-Definition express (s : state) (nm : name) (cbp : bool) (dig : option key) (life : option N) : state * list obs :=
+(* [sent] = whether face.Send succeeded. When it fails Express returns the error, but the entry stays in the PIT with its
+   timer: the callback is still invoked (with a timeout). *)
+Definition express_with (sent : bool) (s : state) (nm : name) (cbp : bool) (dig : option key) (life : option N) : state * list obs :=
   if is_nil nm && is_none dig then (s, [ORet 1]) else      (* len(finalName) <= 0 *)
   match match_always [] (pit s) 0%nat nm with
   | None => panic s
@@ -298,8 +301,9 @@ Definition express (s : state) (nm : name) (cbp : bool) (dig : option key) (life
       let h' := set_val h n (nval (hget h n) ++ [e]) in
       (mkState (now s) h' (fib s) (timers s ++ [mkTimer n (now s + l + timeout_margin) TSched])
                (S (npid s)) (inc s) (panicked s),
-       [OSendInt (npid s)])
+       [if sent then OSendInt (npid s) else ORet 1])
   end.
+Definition express := express_with true.
 
 (* ---- onData ---- *)
 (* does entry e, stored at a node of depth dep, accept the Data (name dn, digest dd)? *)
@@ -477,6 +481,7 @@ Definition step (v : variant) (s : state) (e : ev) : state * list obs :=
   match e with
   | EAdvance d => (mkState (now s + d) (pit s) (fib s) (timers s) (npid s) (inc s) (panicked s), [])
   | EExpress nm cbp dig life => express s nm cbp dig life
+  | EExpressFail nm cbp dig life => express_with false s nm cbp dig life
   | EData dn dd => on_data v s dn dd
   | ENack nm dig reason => on_nack v s nm dig reason
   | EFire tid => fire s tid
